@@ -230,8 +230,8 @@ func runRound(cfg roundCfg, round int, seed int64) (h *history, suspicious bool,
 
 	type valueKey struct{ id, sum string }
 	var vmu sync.Mutex
-	values := map[[32]byte]string{}  // bytes -> value name
-	storedAt := map[string]bool{}    // id + "/" + value name
+	values := map[[32]byte]string{} // bytes -> value name
+	storedAt := map[string]bool{}   // id + "/" + value name
 	logs := make([]*procLog, cfg.Procs)
 	start := make(chan struct{})
 	var wg sync.WaitGroup
